@@ -461,7 +461,48 @@ let conc_line (line : string) =
       let r = (if !incomplete then "INCOMPLETE " else "") ^ Buffer.contents b in r ^ " # " ^ r
   | _ -> "badcase"
 
-let dispatch : (string * (string list -> string)) list ref = ref [ ("ops", ops_case); ("ntt", ntt_case); ("expr", expr_case); ("crt", crt_case); ("set", set_case); ("serial", serial_case); ("rb", rb_case); ("prng", prng_case) ]
+(* ------------------------------------------------------------------ C09/C12: samplers as functions of the tape *)
+(* line: <dist> <w> <n> <nm> <params..> T <hex>;  output "ok words" / "throw" (model) # spec: canonical & consistency verdict *)
+let samp_case toks =
+  let rec split acc = function "T" :: h :: _ -> (List.rev acc, h) | x :: r -> split (x :: acc) r | [] -> (List.rev acc, "-") in
+  match toks with
+  | dist :: w :: n :: nm :: rest ->
+      let (prm, hex) = split [] rest in
+      let wi = int_of_string w and n = int_of_string n and nm = int_of_string nm in
+      let wz = czi wi in
+      let ps = List.init nm (fun cm -> let (p, _, _, _) = row wi cm in p) in
+      let tape = if hex = "-" then [] else unhexb hex in
+      let res =
+        (match dist, prm with
+         | "uniform", [] -> Some (M.set_uniform wz (nat_of_int n) ps tape)
+         | "bounded", [ b; a ] -> M.set_bounded wz (nat_of_int n) ps (cz b) (cz a) tape
+         | "zo", [ rho ] -> Some (M.set_zo (nat_of_int n) ps (cz rho) tape)
+         | "hwt", [ h ] -> (match M.set_hwt (nat_of_int n) ps (nat_of_int (int_of_string h)) tape with Some l -> Some l | None -> Some [ czi (-1) ])
+         | "gauss", a :: noise -> Some (M.set_gauss wz ps (cz a) (czl noise))
+         | _ -> None) in
+      let m = (match res with Some l -> "ok " ^ strl l | None -> "throw") in
+      (* spec verdict on the MODEL output: every word canonical, and one signed value per coefficient across the moduli *)
+      let verdict =
+        (match res with
+         | None -> "throw"
+         | Some l ->
+             let arr = Array.of_list (List.map zz_of_cz l) and pz = Array.of_list (List.map zz_of_cz ps) in
+             if Array.length arr <> n * nm then "badlen" else begin
+               let canon = ref true and cons = ref true in
+               for cm = 0 to nm - 1 do for i = 0 to n - 1 do
+                 let v = arr.(cm * n + i) in
+                 if Z.lt v Z.zero || Z.geq v pz.(cm) then canon := false;
+                 if dist <> "uniform" then begin
+                   (* signed value read off modulus 0 must explain every other modulus *)
+                   let v0 = arr.(i) in let s0 = if Z.gt (Z.mul v0 (Z.of_int 2)) pz.(0) then Z.sub v0 pz.(0) else v0 in
+                   if not (Z.equal (Z.erem s0 pz.(cm)) v) then cons := false
+                 end
+               done done;
+               Printf.sprintf "canonical=%b consistent=%b" !canon !cons end) in
+      m ^ " # " ^ verdict
+  | _ -> "badcase"
+
+let dispatch : (string * (string list -> string)) list ref = ref [ ("ops", ops_case); ("ntt", ntt_case); ("expr", expr_case); ("crt", crt_case); ("set", set_case); ("serial", serial_case); ("rb", rb_case); ("prng", prng_case); ("samp", samp_case) ]
 
 let () =
   let family = if Array.length Sys.argv > 1 then Sys.argv.(1) else "ops" in
